@@ -156,6 +156,13 @@ def oracle_c04(tr: Trace):
                 continue
             if st.pdu is not None and st.pdu["kind"] == codec.K_FD and pf["step"] == 2:
                 continue
+            if st.pdu is not None and st.pdu["kind"] == codec.K_EOF and st.pdu["cond"] != 0:
+                # an EOF (cancel) ends the NAK procedure: nothing is requested from a sender that gave up (C12; F33)
+                if naks or nak_fault:
+                    raise Failure(f"C04 receiver re-issued NAKs / declared the NAK limit in the call that was handed the sender's "
+                                  f"EOF (cancel) (op {st.i})")
+                silent_expiries = 0
+                continue
             expired = now - pf["proc_timer_start"] >= remote["nak_ms"]
             if not expired:
                 if naks or nak_fault or f["nak_counter"] != pf["nak_counter"]:
